@@ -280,7 +280,7 @@ def judgeRun (env : Env) (ctx0 : Ctx) (root : NodeId) (vis : NodeId → Nat) (ca
   let c03 := !cancelFree || Spec.c03 env root vis FUEL o
   let c04 := !cancelFree || Spec.c04 env o
   -- C05 speaks of non-batch nodes and flows; a batch node run directly is judged by C11
-  let c05 := (match env.arena root with | .batch _ => true | _ => false) || Spec.c05 env ctx0 o ref
+  let c05 := (match env.arena root with | .batch _ => true | _ => false) || (Spec.c05 env ctx0 o ref && (ctx0 != .live || Spec.c05Wait env o))
   let c10 := Spec.c10 o flat
   -- C11 inside flows ("the run terminates"): once a callback of a batch node has cancelled the context, nothing of
   -- any other visit (of any node) follows; a batch node run directly is judged by `judgeBatchRoot`
